@@ -14,7 +14,11 @@ def run(cmd, cwd):
 def main(wt, out, features=""):
     patch = os.path.join(out, "patch.diff")
     demo = os.path.join(out, "seed_demo.rs")
-    feat = ["--features", features] if features else []
+    # features: a feature list ("link_to") or, prefixed with "args:", raw cargo arguments for the demo
+    if features.startswith("args:"):
+        feat = features[5:].split()
+    else:
+        feat = ["--features", features] if features else []
     res = {}
     # start from a clean tree
     run(["git", "checkout", "--", "."], wt)
